@@ -93,24 +93,45 @@ macro_rules! check_object {
     }};
 }
 
+/// run-collapse of the two block hash fields of a text `bs:bh1:bh2` (character-wise, O4 on text)
+fn collapse_text(prefix: &[u8]) -> Option<Vec<u8>> {
+    let c1 = prefix.iter().position(|&c| c == b':')?;
+    let c2 = c1 + 1 + prefix[c1 + 1..].iter().position(|&c| c == b':')?;
+    let mut out = prefix[..=c1].to_vec();
+    out.extend(model::normalize(&prefix[c1 + 1..c2]));
+    out.push(b':');
+    out.extend(model::normalize(&prefix[c2 + 1..]));
+    Some(out)
+}
+
 macro_rules! check_text_roundtrip {
     ($l:expr, $T:ty, $t:expr) => {{
         let t: &[u8] = $t;
         let name = <$T as HashLike>::NAME;
-        let strict = cfg!(feature = "ffstrict");
-        let count_raw = strict || !<$T as HashLike>::NORM;
-        if let Parsed::Accept { log, bh1, bh2, end } = model::parse(t, <$T as HashLike>::S2, count_raw, <$T as HashLike>::NORM) {
-            let want = if <$T as HashLike>::NORM { HV::new(log, &bh1, &bh2).text() } else { String::from_utf8_lossy(&t[..end]).into_owned() };
-            let r = guard(|| <$T>::from_bytes(t).map(|h| crate::util::text_of(&h)));
+        // whatever the parser accepts (through any entry point), formatting must give back the text
+        // up to its optional comma (raw types) / its run-collapse (normalizing types)
+        let prefix: &[u8] = match t.iter().position(|&c| c == b',') {
+            Some(p) => &t[..p],
+            None => t,
+        };
+        let want: Option<Vec<u8>> = if <$T as HashLike>::NORM { collapse_text(prefix) } else { Some(prefix.to_vec()) };
+        let mut apis: Vec<(&str, Result<Result<String, ()>, String>)> = Vec::new();
+        apis.push(("from_bytes", guard(|| <$T>::from_bytes(t).map(|h| crate::util::text_of(&h)).map_err(|_| ()))));
+        if let Ok(s) = std::str::from_utf8(t) {
+            apis.push(("from_str", guard(|| s.parse::<$T>().map(|h| crate::util::text_of(&h)).map_err(|_| ()))));
+        }
+        for (api, r) in apis {
             $l.eval(1);
             match r {
                 Ok(Ok(got)) => {
-                    $l.check(got == want, "text-survives", || {
-                        (format!("C05|{}|reformat|{}", name, crate::json::hex(t)), format!("{}: parsing {:?} and formatting it again gives {:?}, expected {:?}", name, esc(t), got, want))
-                    });
+                    if let Some(w) = &want {
+                        $l.check(got.as_bytes() == &w[..], "text-survives", || {
+                            (format!("C05|{}|reformat|{}|{}", name, api, crate::json::hex(t)), format!("{}::{} accepts {:?} and formats it again as {:?}, expected {:?}", name, api, esc(t), got, esc(w)))
+                        });
+                    }
                     $l.count("texts_round_tripped", 1);
                 }
-                Ok(Err(_)) => {} // acceptance is C04's business
+                Ok(Err(_)) => {} // acceptance itself is C04's business
                 Err(p) => $l.violation("totality", format!("C05|{}|reformat-panic|{}", name, crate::json::hex(t)), format!("{}: parse+format of {:?} panicked: {}", name, esc(t), p)),
             }
         }
@@ -153,12 +174,23 @@ pub fn run(o: &Opts) -> i32 {
             l.nt(fnv64(&t));
         }
     }));
+    streams.push(Stream::new("texts-with-suffixes", o.n(20_000, 1_000_000), |_i, rng: &mut Rng, l: &mut Local| {
+        // valid texts followed by characters a lenient parser might swallow
+        let hv = hashes::gen_hv(rng, 32, false);
+        let mut t = hv.text().into_bytes();
+        let suf: &[u8] = *rng.pick(&[&b"\n"[..], b"\r\n", b" ", b"\t", b"\0", b"  ", b"\r", b",", b", ", b",x\n", b"\x0b", b"\x0c"]);
+        t.extend_from_slice(suf);
+        if rng.chance(1, 4) {
+            t.insert(0, *rng.pick(&[b' ', b'\n', b'+', b'0']));
+        }
+        for_plain_types!(T => { check_text_roundtrip!(l, T, &t); });
+    }));
     let rr = run_streams(o, streams);
     finish(
         o,
         rr,
         Report {
-            rule: "objects: valid hashes of the four plain types from W3 block hashes x block sizes (all 31 block sizes at the extreme lengths incl. the advertised maximum): store_into_bytes, Display, to_string, String::from must all equal the independent rendering O8 (decimal block size by integer formatting, base64 by arithmetic), length = len_in_str() <= MAX_LEN_IN_STR, parse back to an == and full_eq object; store_into_bytes with a sentinel-filled buffer of EVERY length 0..need+8 (refused and untouched iff too short, nothing written past the length otherwise). texts: accepted W5 texts re-formatted: raw types reproduce the text up to the comma, normalizing types give the run-collapsed text. Non-trivial = object with both block hashes non-empty / accepted text; distinct by text.".into(),
+            rule: "objects: valid hashes of the four plain types from W3 block hashes x block sizes (all 31 block sizes at the extreme lengths incl. the advertised maximum): store_into_bytes, Display, to_string, String::from must all equal the independent rendering O8 (decimal block size by integer formatting, base64 by arithmetic), length = len_in_str() <= MAX_LEN_IN_STR, parse back to an == and full_eq object; store_into_bytes with a sentinel-filled buffer of EVERY length 0..need+8 (refused and untouched iff too short, nothing written past the length otherwise). texts: W5 texts and valid texts with white-space/control suffixes through from_bytes and FromStr: whenever an entry point accepts, formatting must reproduce the text up to its optional comma (raw types) or its character-wise run-collapse (normalizing types). Non-trivial = object with both block hashes non-empty / accepted text; distinct by text.".into(),
             assumptions: vec![],
             exhaustive: false,
             min_nontrivial: 2000 * o.scale_pct / 100,
